@@ -1,0 +1,332 @@
+//! Verification hook (only with `--cfg gothenburgbitfactory_taskchampion_verif`): the object-store
+//! server over an in-memory object store whose every request passes through a gate, so that a
+//! harness can replay schedules and inject faults.  No behaviour of the server is changed.
+#![allow(missing_docs)]
+
+use super::iter::AsyncObjectIterator;
+use super::server::CloudServer;
+use super::service::{ObjectInfo, Service};
+use crate::errors::{Error, Result};
+use crate::server::{
+    AddVersionResult, GetVersionResult, HistorySegment, Server, Snapshot, SnapshotUrgency,
+    VersionId,
+};
+use async_trait::async_trait;
+use std::future::Future;
+use std::pin::Pin;
+use std::sync::{Arc, Mutex};
+use std::task::{Context, Poll};
+
+#[derive(Default)]
+struct Inner {
+    /// (name, value, creation, sequence number)
+    objects: Vec<(String, Vec<u8>, u64, u64)>,
+    seq: u64,
+    now: u64,
+    /// when gated, a request proceeds only when `turn` names its client
+    gated: bool,
+    turn: Option<usize>,
+    /// (client, request number of that client) -> "before" | "after"
+    faults: Vec<(usize, u64, String)>,
+    counts: Vec<u64>,
+    log: Vec<(usize, String, String)>,
+    page_size: usize,
+}
+
+/// The shared in-memory object store.
+#[derive(Clone, Default)]
+pub struct MemStore(Arc<Mutex<Inner>>);
+
+impl MemStore {
+    pub fn new(now: u64, page_size: usize) -> Self {
+        let s = MemStore::default();
+        {
+            let mut i = s.0.lock().unwrap();
+            i.now = now;
+            i.page_size = page_size.max(1);
+        }
+        s
+    }
+    pub fn dump(&self) -> Vec<(String, Vec<u8>, u64)> {
+        let i = self.0.lock().unwrap();
+        i.objects
+            .iter()
+            .map(|(n, v, c, _)| (n.clone(), v.clone(), *c))
+            .collect()
+    }
+    pub fn put_raw(&self, name: &str, value: Vec<u8>, creation: u64) {
+        let mut i = self.0.lock().unwrap();
+        i.seq += 1;
+        let seq = i.seq;
+        i.objects.retain(|o| o.0 != name);
+        i.objects.push((name.to_string(), value, creation, seq));
+    }
+    pub fn set_creation(&self, name: &str, creation: u64) {
+        let mut i = self.0.lock().unwrap();
+        for o in i.objects.iter_mut() {
+            if o.0 == name {
+                o.2 = creation;
+            }
+        }
+    }
+    pub fn set_gated(&self, gated: bool) {
+        let mut i = self.0.lock().unwrap();
+        i.gated = gated;
+        i.turn = None;
+    }
+    pub fn grant(&self, client: usize) {
+        self.0.lock().unwrap().turn = Some(client);
+    }
+    pub fn add_fault(&self, client: usize, request: u64, kind: &str) {
+        self.0
+            .lock()
+            .unwrap()
+            .faults
+            .push((client, request, kind.to_string()));
+    }
+    pub fn reset_counts(&self) {
+        self.0.lock().unwrap().counts.clear();
+    }
+    pub fn log(&self) -> Vec<(usize, String, String)> {
+        self.0.lock().unwrap().log.clone()
+    }
+}
+
+struct Gate {
+    store: MemStore,
+    client: usize,
+}
+
+impl Future for Gate {
+    type Output = ();
+    fn poll(self: Pin<&mut Self>, _cx: &mut Context<'_>) -> Poll<()> {
+        let mut i = self.store.0.lock().unwrap();
+        if !i.gated {
+            return Poll::Ready(());
+        }
+        if i.turn == Some(self.client) {
+            i.turn = None;
+            Poll::Ready(())
+        } else {
+            Poll::Pending
+        }
+    }
+}
+
+struct MemService {
+    store: MemStore,
+    client: usize,
+}
+
+impl MemService {
+    /// gate, count, log; returns the fault kind for this request if any
+    async fn enter(&self, kind: &str, name: &str) -> Option<String> {
+        Gate {
+            store: self.store.clone(),
+            client: self.client,
+        }
+        .await;
+        let mut i = self.store.0.lock().unwrap();
+        while i.counts.len() <= self.client {
+            i.counts.push(0);
+        }
+        i.counts[self.client] += 1;
+        let n = i.counts[self.client];
+        i.log
+            .push((self.client, kind.to_string(), name.to_string()));
+        i.faults
+            .iter()
+            .find(|(c, r, _)| *c == self.client && *r == n)
+            .map(|(_, _, k)| k.clone())
+    }
+}
+
+fn fault() -> Error {
+    Error::Server("injected service fault".into())
+}
+
+#[async_trait]
+impl Service for MemService {
+    async fn put(&mut self, name: &str, value: &[u8]) -> Result<()> {
+        let f = self.enter("put", name).await;
+        if f.as_deref() == Some("before") {
+            return Err(fault());
+        }
+        {
+            let mut i = self.store.0.lock().unwrap();
+            if let Some(o) = i.objects.iter_mut().find(|o| o.0 == name) {
+                o.1 = value.to_vec();
+            } else {
+                i.seq += 1;
+                let (seq, now) = (i.seq, i.now);
+                i.objects.push((name.to_string(), value.to_vec(), now, seq));
+            }
+        }
+        if f.is_some() {
+            return Err(fault());
+        }
+        Ok(())
+    }
+
+    async fn get(&mut self, name: &str) -> Result<Option<Vec<u8>>> {
+        let f = self.enter("get", name).await;
+        if f.is_some() {
+            return Err(fault());
+        }
+        let i = self.store.0.lock().unwrap();
+        Ok(i.objects.iter().find(|o| o.0 == name).map(|o| o.1.clone()))
+    }
+
+    async fn del(&mut self, name: &str) -> Result<()> {
+        let f = self.enter("del", name).await;
+        if f.as_deref() == Some("before") {
+            return Err(fault());
+        }
+        self.store.0.lock().unwrap().objects.retain(|o| o.0 != name);
+        if f.is_some() {
+            return Err(fault());
+        }
+        Ok(())
+    }
+
+    async fn list<'a>(&'a mut self, prefix: &'a str) -> Box<dyn AsyncObjectIterator + Send + 'a> {
+        Box::new(MemListing {
+            store: self.store.clone(),
+            client: self.client,
+            prefix: prefix.to_string(),
+            cursor: 0,
+            buf: Vec::new(),
+            done: false,
+        })
+    }
+
+    async fn compare_and_swap(
+        &mut self,
+        name: &str,
+        existing_value: Option<Vec<u8>>,
+        new_value: Vec<u8>,
+    ) -> Result<bool> {
+        let f = self.enter("compare_and_swap", name).await;
+        if f.as_deref() == Some("before") {
+            return Err(fault());
+        }
+        let res = {
+            let mut i = self.store.0.lock().unwrap();
+            let cur = i.objects.iter().position(|o| o.0 == name);
+            match (cur, existing_value) {
+                (None, None) => {
+                    i.seq += 1;
+                    let (seq, now) = (i.seq, i.now);
+                    i.objects.push((name.to_string(), new_value, now, seq));
+                    true
+                }
+                (Some(k), Some(ev)) if i.objects[k].1 == ev => {
+                    i.objects[k].1 = new_value;
+                    true
+                }
+                _ => false,
+            }
+        };
+        if f.is_some() {
+            return Err(fault());
+        }
+        Ok(res)
+    }
+}
+
+struct MemListing {
+    store: MemStore,
+    client: usize,
+    prefix: String,
+    cursor: u64,
+    buf: Vec<ObjectInfo>,
+    done: bool,
+}
+
+#[async_trait]
+impl AsyncObjectIterator for MemListing {
+    async fn next(&mut self) -> Option<Result<ObjectInfo>> {
+        loop {
+            if !self.buf.is_empty() {
+                return Some(Ok(self.buf.remove(0)));
+            }
+            if self.done {
+                return None;
+            }
+            // one page = one request
+            let svc = MemService {
+                store: self.store.clone(),
+                client: self.client,
+            };
+            if svc.enter("list", &self.prefix).await.is_some() {
+                self.done = true;
+                return Some(Err(fault()));
+            }
+            let i = self.store.0.lock().unwrap();
+            let mut taken = 0;
+            let mut exhausted = true;
+            for o in i.objects.iter() {
+                if o.3 <= self.cursor {
+                    continue;
+                }
+                if taken >= i.page_size {
+                    exhausted = false;
+                    break;
+                }
+                self.cursor = o.3;
+                taken += 1;
+                if o.0.starts_with(&self.prefix) {
+                    self.buf.push(ObjectInfo {
+                        name: o.0.clone(),
+                        creation: o.2,
+                    });
+                }
+            }
+            if exhausted {
+                self.done = true;
+            }
+        }
+    }
+}
+
+/// The real `CloudServer` over the in-memory store, plus access to its private cleanup.
+pub struct VerifCloudServer(CloudServer<MemService>);
+
+impl VerifCloudServer {
+    pub async fn new(store: &MemStore, client: usize, secret: Vec<u8>) -> Result<Self> {
+        let svc = MemService {
+            store: store.clone(),
+            client,
+        };
+        Ok(VerifCloudServer(CloudServer::new(svc, secret).await?))
+    }
+    pub async fn cleanup(&mut self) -> Result<()> {
+        self.0.verif_cleanup().await
+    }
+    pub fn set_cleanup_probability(&mut self, p: u8) {
+        self.0.verif_set_cleanup_probability(p)
+    }
+}
+
+#[async_trait(?Send)]
+impl Server for VerifCloudServer {
+    async fn add_version(
+        &mut self,
+        parent_version_id: VersionId,
+        history_segment: HistorySegment,
+    ) -> Result<(AddVersionResult, SnapshotUrgency)> {
+        self.0.add_version(parent_version_id, history_segment).await
+    }
+    async fn get_child_version(
+        &mut self,
+        parent_version_id: VersionId,
+    ) -> Result<GetVersionResult> {
+        self.0.get_child_version(parent_version_id).await
+    }
+    async fn add_snapshot(&mut self, version_id: VersionId, snapshot: Snapshot) -> Result<()> {
+        self.0.add_snapshot(version_id, snapshot).await
+    }
+    async fn get_snapshot(&mut self) -> Result<Option<(VersionId, Snapshot)>> {
+        self.0.get_snapshot().await
+    }
+}
